@@ -101,10 +101,24 @@ class Intervals:
                 return None
             return (a[0] + b[0], a[1] + b[1]) if e["op"] == "+" else (a[0] - b[1], a[1] - b[0])
         if k == "Cond":
-            a, b = self.ev(e.get("a"), env), self.ev(e.get("b"), env)
+            # the condition may be decided by the valuation of the stable boolean atoms or refine one of the tracked values
+            ta, tb = self.refine(e.get("c"), env, True), self.refine(e.get("c"), env, False)
+            a = self.ev(e.get("a"), ta) if ta is not None else None
+            b = self.ev(e.get("b"), tb) if tb is not None else None
+            if ta is None and tb is not None:
+                return b
+            if tb is None and ta is not None:
+                return a
             if a is None or b is None:
                 return None
             return (min(a[0], b[0]), max(a[1], b[1]))
+        if k == "Call" and e.get("short") in ("min", "max") and len(e.get("args", [])) == 2 and (e.get("ext") or "std::" in (e.get("fn") or "")):
+            a, b = self.ev(e["args"][0], env), self.ev(e["args"][1], env)
+            if a is None or b is None:
+                return None
+            if e["short"] == "min":
+                return (min(a[0], b[0]), min(a[1], b[1]))
+            return (max(a[0], b[0]), max(a[1], b[1]))
         if k == "Call" and e.get("short") in ("size", "length"):
             kk = self.key(e)
             return env.get(kk, (0, INF)) if kk else (0, INF)
@@ -336,6 +350,8 @@ class Intervals:
         for n in walk(body):
             if n["k"] in ("If", "While", "For", "Do") and is_node(n.get("cond")):
                 cond_atoms(n["cond"])
+            if n["k"] == "Cond" and is_node(n.get("c")):
+                cond_atoms(n["c"])
         return atoms
 
     def stmt(self, s, env):
